@@ -100,7 +100,15 @@ func (r R) Piece(q byte) (ir.Piece, int) {
 		for k := 1; k < maxLen && r.Intn(3, "omore") > 0; k++ {
 			digits += string(rune('0' + r.Intn(8, "od")))
 		}
-		return OctalPiece(digits), fam
+		op := OctalPiece(digits)
+		if r.Intn(3, "odigitafter") == 0 {
+			// directly followed by an escape that denotes a digit: written raw, the
+			// digit would become part of the octal escape
+			d := r.Intn(10, "odigit")
+			op.Src += fmt.Sprintf([]string{"\\x3%d", "\\u003%d", "\\u{3%d}"}[r.Intn(3, "odform")], d)
+			op.Units = append(op.Units, uint16('0'+d))
+		}
+		return op, fam
 	case PIdentityNonASCII:
 		// a backslash in front of a non-ASCII character is an identity escape;
 		// in front of U+2028/U+2029 it is a line continuation
@@ -213,7 +221,7 @@ func PieceFamilies(n *ir.Node) map[string]bool {
 			m["unicode-escape"] = true
 		case p.Src == "\\\n" || p.Src == "\\\r\n":
 			m["line-continuation"] = true
-		case isOctalEscape(p.Src) && p.Src != "\\0":
+		case len(p.Src) >= 2 && p.Src[0] == '\\' && p.Src[1] >= '0' && p.Src[1] <= '7' && p.Src != "\\0":
 			m["legacy-octal-escape"] = true
 		case len(p.Src) > 1 && p.Src[0] == '\\' && p.Src[1] >= 0x80:
 			m["identity-escape-nonascii"] = true
